@@ -111,13 +111,61 @@ func c05Set(p *Prog, r *Report) {
 		}
 		return true
 	})
+	// values that stand for the target s: the parameter and locals computed from it alone (target := uint64(s))
+	sDerived := map[types.Object]bool{sParam: true}
+	for changed := true; changed; {
+		changed = false
+		ast.Inspect(fi.Decl.Body, func(x ast.Node) bool {
+			as, ok := x.(*ast.AssignStmt)
+			if !ok || len(as.Lhs) != len(as.Rhs) {
+				return true
+			}
+			for i, l := range as.Lhs {
+				lo := objOf(info, l)
+				if lo == nil || sDerived[lo] || loaded[lo] || lo == counter {
+					continue
+				}
+				fromS, other := false, false
+				ast.Inspect(as.Rhs[i], func(y ast.Node) bool {
+					if id, ok := y.(*ast.Ident); ok {
+						if o, isVar := objOf(info, id).(*types.Var); isVar {
+							if sDerived[o] {
+								fromS = true
+							} else if loaded[o] || o == counter {
+								other = true
+							}
+						}
+					}
+					if _, isCall := y.(*ast.CallExpr); isCall {
+						if tv, ok := info.Types[y.(*ast.CallExpr).Fun]; !ok || !tv.IsType() {
+							other = true
+						}
+					}
+					return true
+				})
+				if fromS && !other {
+					sDerived[lo] = true
+					changed = true
+				}
+			}
+			return true
+		})
+	}
+	usesS := func(n ast.Node) bool {
+		for o := range sDerived {
+			if usesObj(info, n, o) {
+				return true
+			}
+		}
+		return false
+	}
 	isCAS := func(c *ast.CallExpr) bool {
 		name := exprPath(c.Fun)
 		if strings.HasPrefix(name, "atomic.CompareAndSwap") && len(c.Args) == 3 && isCounterRef(info, c.Args[0], counter) {
-			return usesObj(info, c.Args[2], sParam)
+			return usesS(c.Args[2])
 		}
 		if sel, ok := c.Fun.(*ast.SelectorExpr); ok && sel.Sel.Name == "CompareAndSwap" && objOf(info, sel.X) == counter && len(c.Args) == 2 {
-			return usesObj(info, c.Args[1], sParam)
+			return usesS(c.Args[1])
 		}
 		return false
 	}
@@ -134,7 +182,7 @@ func c05Set(p *Prog, r *Report) {
 			}
 			return true
 		})
-		if !mentionsCur || !usesObj(info, e, sParam) {
+		if !mentionsCur || !usesS(e) {
 			return false, false, false
 		}
 		res := map[[2]int64]bool{}
@@ -142,6 +190,9 @@ func c05Set(p *Prog, r *Report) {
 			env := &Env{P: p, Pkg: fi.Pkg, Vars: map[types.Object]*Val{sParam: intVal(cs[1]), counter: intVal(cs[0])}}
 			for o := range loaded {
 				env.Vars[o] = intVal(cs[0])
+			}
+			for o := range sDerived {
+				env.Vars[o] = intVal(cs[1])
 			}
 			v, err := env.Eval(e)
 			if err != nil || v.C == nil || v.C.Kind() != constant.Bool {
@@ -210,14 +261,14 @@ func c05Set(p *Prog, r *Report) {
 		isStore := false
 		for _, c := range callsIn(n.Ast, false) {
 			name := exprPath(c.Fun)
-			if (strings.HasPrefix(name, "atomic.Store") || strings.HasPrefix(name, "atomic.Swap")) && len(c.Args) == 2 && isCounterRef(info, c.Args[0], counter) && usesObj(info, c.Args[1], sParam) {
+			if (strings.HasPrefix(name, "atomic.Store") || strings.HasPrefix(name, "atomic.Swap")) && len(c.Args) == 2 && isCounterRef(info, c.Args[0], counter) && usesS(c.Args[1]) {
 				isStore = true
 			}
 			if sel, ok := c.Fun.(*ast.SelectorExpr); ok && (sel.Sel.Name == "Store" || sel.Sel.Name == "Swap") && objOf(info, sel.X) == counter {
 				isStore = true
 			}
 		}
-		if as, ok := n.Ast.(*ast.AssignStmt); ok && len(as.Lhs) == 1 && objOf(info, as.Lhs[0]) == counter && usesObj(info, as.Rhs[0], sParam) {
+		if as, ok := n.Ast.(*ast.AssignStmt); ok && len(as.Lhs) == 1 && objOf(info, as.Lhs[0]) == counter && usesS(as.Rhs[0]) {
 			isStore = true
 		}
 		if isStore {
